@@ -61,6 +61,8 @@ ABTI_unit_set_associated_pool(ABTI_global *p_global, ABT_unit unit,
             /* Do nothing since built-in pools share the implementation of
              * ABT_unit. */
             p_thread->p_pool = p_pool;
+            ABTI_VERIF_EV(ABTI_VEV_SET_POOL, p_thread, p_pool, 0);
+        ABTI_VERIF_EV(ABTI_VEV_SET_POOL, p_thread, p_pool, 0);
             *pp_thread = p_thread;
             return ABT_SUCCESS;
         } else {
@@ -78,6 +80,8 @@ ABTI_unit_set_associated_pool(ABTI_global *p_global, ABT_unit unit,
             }
             p_thread->unit = new_unit;
             p_thread->p_pool = p_pool;
+            ABTI_VERIF_EV(ABTI_VEV_SET_POOL, p_thread, p_pool, 0);
+        ABTI_VERIF_EV(ABTI_VEV_SET_POOL, p_thread, p_pool, 0);
             *pp_thread = p_thread;
             return ABT_SUCCESS;
         }
@@ -93,6 +97,8 @@ ABTI_unit_set_associated_pool(ABTI_global *p_global, ABT_unit unit,
             p_thread->p_pool->required_def.p_free_unit(old_pool, unit);
             ABTI_unit_init_builtin(p_thread);
             p_thread->p_pool = p_pool;
+            ABTI_VERIF_EV(ABTI_VEV_SET_POOL, p_thread, p_pool, 0);
+        ABTI_VERIF_EV(ABTI_VEV_SET_POOL, p_thread, p_pool, 0);
             *pp_thread = p_thread;
             return ABT_SUCCESS;
         } else if (p_thread->p_pool == p_pool) {
@@ -117,6 +123,8 @@ ABTI_unit_set_associated_pool(ABTI_global *p_global, ABT_unit unit,
             p_thread->p_pool->required_def.p_free_unit(old_pool, unit);
             p_thread->unit = new_unit;
             p_thread->p_pool = p_pool;
+            ABTI_VERIF_EV(ABTI_VEV_SET_POOL, p_thread, p_pool, 0);
+        ABTI_VERIF_EV(ABTI_VEV_SET_POOL, p_thread, p_pool, 0);
             *pp_thread = p_thread;
             return ABT_SUCCESS;
         }
@@ -132,6 +140,7 @@ ABTU_ret_err static inline int ABTI_thread_init_pool(ABTI_global *p_global,
     if (ABTU_likely(p_pool->is_builtin)) {
         ABTI_unit_init_builtin(p_thread);
         p_thread->p_pool = p_pool;
+        ABTI_VERIF_EV(ABTI_VEV_SET_POOL, p_thread, p_pool, 0);
         return ABT_SUCCESS;
     } else {
         ABT_pool pool = ABTI_pool_get_handle(p_pool);
@@ -147,6 +156,7 @@ ABTU_ret_err static inline int ABTI_thread_init_pool(ABTI_global *p_global,
         }
         p_thread->unit = new_unit;
         p_thread->p_pool = p_pool;
+        ABTI_VERIF_EV(ABTI_VEV_SET_POOL, p_thread, p_pool, 0);
         return ABT_SUCCESS;
     }
 }
@@ -160,6 +170,7 @@ ABTI_thread_set_associated_pool(ABTI_global *p_global, ABTI_thread *p_thread,
         /* Do nothing since built-in pools share the implementation of
          * ABT_unit. */
         p_thread->p_pool = p_pool;
+        ABTI_VERIF_EV(ABTI_VEV_SET_POOL, p_thread, p_pool, 0);
         return ABT_SUCCESS;
     } else if (ABTI_unit_is_builtin(unit)) {
         /* The new unit is associated with a custom pool.  Add a new mapping. */
@@ -176,6 +187,7 @@ ABTI_thread_set_associated_pool(ABTI_global *p_global, ABTI_thread *p_thread,
         }
         p_thread->unit = new_unit;
         p_thread->p_pool = p_pool;
+        ABTI_VERIF_EV(ABTI_VEV_SET_POOL, p_thread, p_pool, 0);
         return ABT_SUCCESS;
     } else if (p_pool->is_builtin) {
         /* The old unit is associated with a custom pool.  Remove the existing
@@ -185,6 +197,7 @@ ABTI_thread_set_associated_pool(ABTI_global *p_global, ABTI_thread *p_thread,
         p_thread->p_pool->required_def.p_free_unit(old_pool, unit);
         ABTI_unit_init_builtin(p_thread);
         p_thread->p_pool = p_pool;
+        ABTI_VERIF_EV(ABTI_VEV_SET_POOL, p_thread, p_pool, 0);
         return ABT_SUCCESS;
     } else if (p_thread->p_pool == p_pool) {
         /* Both are associated with the same custom pool. */
@@ -207,6 +220,7 @@ ABTI_thread_set_associated_pool(ABTI_global *p_global, ABTI_thread *p_thread,
         p_thread->p_pool->required_def.p_free_unit(old_pool, unit);
         p_thread->unit = new_unit;
         p_thread->p_pool = p_pool;
+        ABTI_VERIF_EV(ABTI_VEV_SET_POOL, p_thread, p_pool, 0);
         return ABT_SUCCESS;
     }
 }
